@@ -414,6 +414,12 @@ func NewModels(w *World) *Models {
 	m.Str = &StreamModel{ValFee: ratOfDec(k.ValFee), Streams: map[string]*Stream{}}
 	m.Gov = &GovModel{Pending: map[uint64]*Proposal{}}
 	m.Grp = &GroupModel{Admin: map[uint64]string{}}
+	if k.GenesisRegUpper && k.ManyRegs > 0 {
+		// registration 1 of each kind belongs to actor 3 (written in upper case in the document)
+		owner := w.Actors[3].Bech()
+		m.Wrk.Regs[1] = &Reg{Id: 1, Owner: owner, Meta: []string{"gen-1", "from genesis", "G1F", "geth"}, RegTime: uint64(GenesisTS) - 100, Limit: new(big.Int).SetUint64(k.Wrk.DefLimit)}
+		m.Bcn.Regs[1] = &Reg{Id: 1, Owner: owner, Meta: []string{"gen-1", "from genesis"}, RegTime: uint64(GenesisTS) - 100, Limit: new(big.Int).SetUint64(k.Beacon.DefLimit)}
+	}
 	return m
 }
 
@@ -460,7 +466,7 @@ func Flatten(msgs []sdk.Msg) []Leaf {
 		for _, m := range ms {
 			if ex, ok := m.(*authz.MsgExec); ok {
 				inner, err := ex.GetMessages()
-				if err == nil && depth < 6 {
+				if err == nil && depth < 64 {
 					rec(inner, depth+1, ex.Grantee)
 					continue
 				}
